@@ -499,7 +499,17 @@ def reconfigured_cases(res, only=None):
         r = getattr(Rule().modules_that().are_named("r.a"), verb)().import_modules_that().are_named("r.c")
         return r, (lambda: r.modules_that().are_sub_modules_of("r.zz_undefined"))
 
+    def dr_typo(order):
+        # a diagram in which one component does not exist, next to a pair of components whose rule is violated
+        # on the architecture without imports (a does not import b): the aggregate must still be an error
+        lines = ["[a] --> [b]", "[c] --> [zz_typo]"] if order == "violated-first" else ["[zz_typo] --> [c]", "[a] --> [b]"]
+        path = pathlib.Path(os.path.join(d, f"typo-{order}.puml"))
+        path.write_text("@startuml\n" + "\n".join(lines) + "\n@enduml\n")
+        r = DiagramRule().from_file(path).with_base_module("r")
+        return r, (lambda: None)
+
     cases = [("diagram-base", so, dr_base) for so in (True, False)] + [("diagram-file", so, dr_file) for so in (True, False)]
+    cases += [("diagram-unknown-component", o, dr_typo) for o in ("violated-first", "violated-last")]
     cases += [("rule-object", v, rule_obj) for v in ("should", "should_only", "should_not")]
     cases += [("rule-subject", v, rule_subj) for v in ("should", "should_only", "should_not")]
     for name, arg, mk_ in cases:
@@ -507,7 +517,7 @@ def reconfigured_cases(res, only=None):
             continue
         for ev in evs:
             r, reconfigure = mk_(arg)
-            first = run_rule(r, ev)
+            first = run_rule(r, ev) if name != "diagram-unknown-component" else ("-", "")
             try:
                 reconfigure()
                 got = run_rule(r, ev)
